@@ -1,0 +1,11 @@
+//go:build verif
+
+package cacheutil
+
+// VerifExpire runs the body of the TTL timer of key (lock; evictLocked), so that
+// verification harnesses can fire expiry at a chosen point of a history.
+func (c *TTLCache) VerifExpire(key string) {
+	c.mu.Lock()
+	defer c.mu.Unlock()
+	c.evictLocked(key)
+}
